@@ -193,9 +193,9 @@ def spec(sp, alt=None, eq='=', sep='\n'):
     for i, pat in enumerate(sp.ignores):
         style = sp.ignore_style
         if style == 'named':
-            ign.append('ignore Ig%d %s %s' % (i, eq, R.r(pat)))
+            ign.append('ignore %s%d %s %s' % (sp.ignore_prefix, i, eq, R.r(pat)))
         elif style == 'named_ignored':
-            ign.append('ignored Ig%d %s %s' % (i, eq, R.r(pat)))
+            ign.append('ignored %s%d %s %s' % (sp.ignore_prefix, i, eq, R.r(pat)))
         elif style in ('anon', 'anon_after'):
             ign.append('ignore %s' % R.r(pat))
         elif style == 'anon_ignored':
@@ -206,7 +206,8 @@ def spec(sp, alt=None, eq='=', sep='\n'):
     for name, d in sp.rules:
         ps = '(%s)' % ', '.join(d[1]) if d[1] else ''
         if d[0] == 'rule':
-            body.append('%s%s %s %s' % (name, ps, eq, R.r(d[2])))
+            ov = 'override ' if name in sp.overrides else ''
+            body.append('%s%s%s %s %s' % (ov, name, ps, eq, R.r(d[2])))
         else:
             ms = []
             for (mn, om, ex) in d[2]:
